@@ -37,6 +37,7 @@ import DemesVerif.Proofs.MsPrint
 import DemesVerif.Proofs.MsRoundTripExamples
 import DemesVerif.Proofs.MsRTExamples
 import DemesVerif.Proofs.MsRTTameExamples
+import DemesVerif.Proofs.MsRTNormExamples
 import DemesVerif.Theorems.TablesMsModel
 namespace Demes.Theorems
 open Demes Demes.Ms Demes.Spec.C09
@@ -257,7 +258,7 @@ lifetime the same size; the same migration rates on the lifetimes; the same line
 restricted to the lifetimes.  (An ms population exists from time 0, a deme may end before the
 present: nothing is, or can be, said about the returned graph before a deme's `end_time`.) -/
 
-open Demes.Spec.C07 (MsExpressible samplesOk ExactProportions parseCmd msSemG)
+open Demes.Spec.C07 (MsExpressible samplesOk ExactProportions normalizeProportions parseCmd msSemG)
 open Demes.Spec.C08 (PlainTokens Tame' resultSem semEquiv)
 open Demes.Spec.MsSem (msSem graphSem)
 open Demes.Proofs.MsRT (roundTripHyps admixture twoEpochs roundTripAgainst refinesAt branchMigSize branchMigRate branchMigTime)
@@ -320,6 +321,33 @@ theorem ms_roundtrip_sem_tame (c : NumCodec) (sa : Growth → String) {g : Graph
       ∧ semEquiv sem rs = true ∧ SemRefines sem gs ∧ SemRefines rs gs :=
   Proofs.MsRT.ms_roundtrip_sem_tame c sa hv hx hex hcs hpt hN hs htoks hc hfrom
 
+/-- **Without `ExactProportions`.**  `to_ms` renormalises the ancestry proportions of a deme, so the
+command it emits is the one it emits for `normalizeProportions g` (Spec/C07Sem.lean: every deme's
+proportions divided by their sum; C07's `toMs_sem`, `normalizeProportions_close`).  For every valid
+ms-expressible graph of constant sizes the conclusion of `ms_roundtrip_sem_partial` holds with the
+demography `gs` of the normalised graph. -/
+theorem ms_roundtrip_sem_norm (c : NumCodec) (sa : Growth → String) {g : Graph} (hv : Spec.validGraph g = true)
+    (hx : MsExpressible g = true) (hcs : ConstSizes g = true)
+    {N0 : Q} (hN : 0 < N0) {samples : Option (List Int)} (hs : samplesOk g samples = true)
+    {toks : List (Tok Growth)} (htoks : toMs g N0 samples = .ok toks) (hc : CodecCovers c toks)
+    {mg : MsGraph} (hfrom : fromMs (renderG c sa toks) N0 none = .ok mg)
+    {pr : Spec.MsSem.Parsed} (hpr : Spec.MsSem.parse (renderG c sa toks) = .ok pr) (ht : Tame' pr = true) :
+    ∃ sem rs gs, msSem (renderG c sa toks) N0 = .ok sem ∧ resultSem mg = .ok rs
+      ∧ graphSem (inGenerations (normalizeProportions g)) none = .ok gs
+      ∧ semEquiv sem rs = true ∧ SemRefines sem gs ∧ SemRefines rs gs :=
+  Proofs.MsRT.ms_roundtrip_sem_norm c sa hv hx hcs hN hs htoks hc hfrom hpr ht
+
+/-- … and with `Tame'` replaced by the graph condition `PulsesTame`. -/
+theorem ms_roundtrip_sem_tame_norm (c : NumCodec) (sa : Growth → String) {g : Graph} (hv : Spec.validGraph g = true)
+    (hx : MsExpressible g = true) (hcs : ConstSizes g = true) (hpt : PulsesTame g = true)
+    {N0 : Q} (hN : 0 < N0) {samples : Option (List Int)} (hs : samplesOk g samples = true)
+    {toks : List (Tok Growth)} (htoks : toMs g N0 samples = .ok toks) (hc : CodecCovers c toks)
+    {mg : MsGraph} (hfrom : fromMs (renderG c sa toks) N0 none = .ok mg) :
+    ∃ sem rs gs, msSem (renderG c sa toks) N0 = .ok sem ∧ resultSem mg = .ok rs
+      ∧ graphSem (inGenerations (normalizeProportions g)) none = .ok gs
+      ∧ semEquiv sem rs = true ∧ SemRefines sem gs ∧ SemRefines rs gs :=
+  Proofs.MsRT.ms_roundtrip_sem_tame_norm c sa hv hx hcs hpt hN hs htoks hc hfrom
+
 /-! ### the hypotheses that are forced, with their witnesses
 
 * acceptance by `from_ms` (F6): `ms_roundtrip_acceptance_counterexample` — every other hypothesis of
@@ -333,7 +361,9 @@ theorem ms_roundtrip_sem_tame (c : NumCodec) (sa : Growth → String) {g : Graph
   movements — sufficient, not necessary (`Proofs.MsRT.tame_not_necessary`: pulses `A → B`, `B → C` at
   one time are outside `PulsesTame` and `Tame'`, and go round correctly; so did, by evaluation outside
   the kernel, all 216 triples of same-time pulses between three constant demes).
-* `ExactProportions` is C07's hypothesis (`toMs_sem_counterexample`).
+* `ExactProportions` is C07's hypothesis (`toMs_sem_counterexample`) for the comparison with the graph
+  as stored; `ms_roundtrip_sem_norm` / `ms_roundtrip_sem_tame_norm` do without it, comparing with the
+  graph whose ancestry proportions are normalised.
 * `ConstSizes` is forced by the method, not by a counterexample: see the head of this section. -/
 
 /-- **acceptance is a hypothesis (F6).** -/
@@ -454,6 +484,24 @@ example {g : Graph} {N0 : Q} (h : roundTripHyps g N0 = true) :
       ∧ Spec.MsSem.parse (renderG tableCodec growthStr toks) = .ok pr ∧ Tame' pr = true :=
   Proofs.MsRT.roundTripHyps_spec h
 example := Proofs.MsRT.roundTrip_of_hyps (g := admixture) (N0 := 1) (by decide +kernel)
+
+/-- **`ms_roundtrip_sem_norm` / `ms_roundtrip_sem_tame_norm`**: every hypothesis (`roundTripHypsNorm`:
+`roundTripHyps` without `ExactProportions`) holds for `admixtureInexact` — `admixture` with the
+proportions of `C` equal to `[1/2 - 2⁻⁴¹, 1/2 - 2⁻⁴¹]`, sum `1 - 2⁻⁴⁰` — which does not have exact
+proportions and whose normalisation is `admixture`; `to_ms` prints the command of `admixture` -/
+example : Proofs.MsRT.roundTripHypsNorm Proofs.MsRT.admixtureInexact 1 = true
+    ∧ ExactProportions Proofs.MsRT.admixtureInexact = false
+    ∧ PulsesTame Proofs.MsRT.admixtureInexact = true
+    ∧ (normalizeProportions Proofs.MsRT.admixtureInexact).demes = admixture.demes := by decide +kernel
+example {g : Graph} {N0 : Q} (h : Proofs.MsRT.roundTripHypsNorm g N0 = true) :
+    Spec.validGraph g = true ∧ MsExpressible g = true ∧ ConstSizes g = true ∧ 0 < N0 ∧
+    ∃ toks mg pr, toMs g N0 none = .ok toks ∧ CodecCovers tableCodec toks
+      ∧ fromMs (renderG tableCodec growthStr toks) N0 none = .ok mg
+      ∧ Spec.MsSem.parse (renderG tableCodec growthStr toks) = .ok pr ∧ Tame' pr = true :=
+  Proofs.MsRT.roundTripHypsNorm_spec h
+example := Proofs.MsRT.roundTripNorm_of_hyps (g := Proofs.MsRT.admixtureInexact) (N0 := 1) (by decide +kernel)
+example : (toMs Proofs.MsRT.admixtureInexact 1 none).toOption.map (renderG tableCodec growthStr)
+    = (toMs admixture 1 none).toOption.map (renderG tableCodec growthStr) := by decide +kernel
 
 /-- the admixture as `to_ms` prints it -/
 example : (toMs admixture 1 none).toOption.map (renderG tableCodec growthStr)
